@@ -11,6 +11,7 @@ import (
 	"log/slog"
 	"math/rand"
 	"os"
+	"regexp"
 	"sort"
 	"strings"
 	"time"
@@ -154,7 +155,7 @@ type Case struct {
 // unclassifiedErrorMatches: real = "err other:<text> rest…", model = "err <class> rest…" with equal rests.
 func unclassifiedErrorMatches(real, model string) bool {
 	ra, mb := strings.Fields(real), strings.Fields(model)
-	if len(ra) < 2 || len(mb) < 2 || len(ra) != len(mb) || ra[0] != "err" || mb[0] != "err" || !strings.HasPrefix(ra[1], "other:") {
+	if len(ra) < 2 || len(mb) < 2 || len(ra) != len(mb) || ra[0] != "err" || mb[0] != "err" || !(ra[1] == "other" || strings.HasPrefix(ra[1], "other:")) {
 		return false
 	}
 	for i := 2; i < len(ra); i++ {
@@ -187,7 +188,7 @@ func diffBatch(c *Ctx, engine string, cases []Case, norm func(string) string) er
 			if norm != nil {
 				a, b = norm(a), norm(b)
 			}
-			if a != b && unclassifiedErrorMatches(a, b) {
+			if a != b && (unclassifiedErrorMatches(a, b) || otherClassMatches(a, b)) {
 				// the implementation returned an error whose TEXT the harness does not know (a reworded
 				// message, say); error wording is part of no property, so it is accepted as "an error"
 				// where the model also says error — and counted, so that it stays visible
@@ -205,4 +206,118 @@ func diffBatch(c *Ctx, engine string, cases []Case, norm func(string) string) er
 		}
 	}
 	return nil
+}
+
+// Planned / Ran: coverage an engine planned for itself and what of it actually ran. A setup step
+// that fails (cannot listen, a preparatory handshake fails, a sandbox cannot be made) must not turn
+// into a quiet `continue`: the engine would complete, look green and have checked a fraction.
+// ./check compares every `planned:<what>` with `ran:<what>` in the Distribution and breaks an
+// obligation when less than 90 % ran. (Workers of the race engine write the same keys into their Dist.)
+func (c *Ctx) Planned(what string, n int) { c.Res.Distribution["planned:"+what] += n }
+func (c *Ctx) Ran(what string, n int)     { c.Res.Distribution["ran:"+what] += n }
+
+// HarnessPanic: a panic of the HARNESS (not of the library) that an engine recovered from in order to
+// go on. The cases it would have produced are lost, so ./check reports it as a broken obligation.
+func (c *Ctx) HarnessPanic(where string, p any) {
+	c.Res.Distribution["harness-panic-swallowed"]++
+	if len(c.Res.Notes) < 200 {
+		c.Res.Notes = append(c.Res.Notes, fmt.Sprintf("harness panic swallowed in %s: %v", where, p))
+	}
+}
+
+// otherClassMatches: the implementation's line carries the error class `other` (an error whose
+// wording the harness does not know; never the text itself) somewhere INSIDE it -- `ret=other`,
+// `err:allFailed[ctx,other]` -- and the model's line is the same except that it names a class there.
+// Error wording is part of no property: "an error of unknown wording" is accepted wherever the model
+// says "an error" (any class name that is not ok), and counted by the caller.
+var reOtherClass = regexp.MustCompile(`\bother(?::[^ ,\]|=]*)?`)
+
+var reBracketList = regexp.MustCompile(`\[[^\[\]]*\]`)
+
+// otherInLists: comma lists in brackets are canonicalised by sorting, so an `other` does not stand at
+// the position of the class it replaces: the k-th list of both lines is compared as a multiset, each
+// surplus `other` of the implementation against one surplus class of the model; lists that agree in
+// this sense are replaced by the same placeholder on both sides.
+func otherInLists(real, model string) (string, string, bool) {
+	rl, ml := reBracketList.FindAllStringIndex(real, -1), reBracketList.FindAllStringIndex(model, -1)
+	if len(rl) != len(ml) {
+		return real, model, true // nothing done here; the positional comparison decides
+	}
+	for k := len(rl) - 1; k >= 0; k-- {
+		rs, ms := real[rl[k][0]+1:rl[k][1]-1], model[ml[k][0]+1:ml[k][1]-1]
+		if !reOtherClass.MatchString(rs) {
+			continue
+		}
+		re, me := strings.Split(rs, ","), strings.Split(ms, ",")
+		if len(re) != len(me) {
+			return real, model, false
+		}
+		left := map[string]int{}
+		for _, x := range me {
+			left[x]++
+		}
+		others := 0
+		for _, x := range re {
+			if left[x] > 0 {
+				left[x]--
+			} else if reOtherClass.FindString(x) == x {
+				others++
+			} else {
+				return real, model, false
+			}
+		}
+		for x, n := range left {
+			if n > 0 && (x == "ok" || strings.HasPrefix(x, "ok:") || x == "none") {
+				return real, model, false
+			}
+			others -= n
+		}
+		if others != 0 {
+			return real, model, false
+		}
+		real = real[:rl[k][0]] + "[~]" + real[rl[k][1]:]
+		model = model[:ml[k][0]] + "[~]" + model[ml[k][1]:]
+	}
+	return real, model, true
+}
+
+func otherClassMatches(real, model string) bool {
+	if !reOtherClass.MatchString(real) {
+		return false
+	}
+	var ok bool
+	if real, model, ok = otherInLists(real, model); !ok {
+		return false
+	}
+	if real == model {
+		return true
+	}
+	locs := reOtherClass.FindAllStringIndex(real, -1)
+	if len(locs) == 0 || len(locs) > 8 {
+		return false
+	}
+	var pat strings.Builder
+	pat.WriteString(`\A`)
+	prev := 0
+	for _, l := range locs {
+		pat.WriteString(regexp.QuoteMeta(real[prev:l[0]]))
+		pat.WriteString(`([A-Za-z][A-Za-z0-9_.:\-]*)`)
+		prev = l[1]
+	}
+	pat.WriteString(regexp.QuoteMeta(real[prev:]))
+	pat.WriteString(`\z`)
+	re, err := regexp.Compile(pat.String())
+	if err != nil {
+		return false
+	}
+	m := re.FindStringSubmatch(model)
+	if m == nil {
+		return false
+	}
+	for _, g := range m[1:] {
+		if g == "ok" || strings.HasPrefix(g, "ok:") || g == "none" {
+			return false
+		}
+	}
+	return true
 }
